@@ -461,6 +461,13 @@ Example spe_distance_calls_designated_local_nonvacuous :
   Forall (fun i => is_perm (length range) (it_from i) /\ us_ok (Nat.min 3 (length range / 2)) (it_us i)) w_its.
 Proof. repeat split; try (cbn; lia); [apply w_nbrs_ok|exact w_its_ok]. Qed.
 
+Theorem spe_max_loop_calls_designated : forall range,
+  2 * length (max_loop_calls range) = length range * (length range - 1) /\
+  forall a b, In (a, b) (max_loop_calls range) <->
+              exists i j, i < j /\ j < length range /\ a = at_pos range i /\ b = at_pos range j.
+Proof. exact (fun range => conj (max_loop_calls_length range) (max_loop_calls_In range)). Qed.
+Print Assumptions spe_max_loop_calls_designated.
+
 Theorem spe_run_depends_on_designated_distances_global :
   forall (F : Type) (Fo : FieldOps F)
     (old : bool) nbrs nupd range range' its (norms : list (list F)) (tol alpha : F)
